@@ -164,6 +164,147 @@ macro_rules! codec_impl {
 pub struct G1m;
 pub struct G2m;
 
+/// The group operations written against the CONCRETE crate types with method-call syntax - exactly
+/// what a user of the crate writes. (Generic code would dispatch to the trait methods and would not
+/// see an inherent method that shadows one of them.)
+pub trait Ops: Grp {
+    fn op_add(a: &mut Self::Proj, b: &Self::Proj);
+    fn op_sub(a: &mut Self::Proj, b: &Self::Proj);
+    fn op_add_mixed(a: &mut Self::Proj, b: &Self::Aff);
+    fn op_sub_mixed(a: &mut Self::Proj, b: &Self::Aff);
+    fn op_double(a: &mut Self::Proj);
+    fn op_neg(a: &mut Self::Proj);
+    fn op_neg_aff(a: &mut Self::Aff);
+    fn op_to_affine(a: &Self::Proj) -> Self::Aff;
+    fn op_to_proj(a: &Self::Aff) -> Self::Proj;
+    fn op_is_zero(a: &Self::Proj) -> bool;
+    fn op_aff_is_zero(a: &Self::Aff) -> bool;
+    fn op_is_normalized(a: &Self::Proj) -> bool;
+    fn op_batch(v: &mut [Self::Proj]);
+    fn op_eq(a: &Self::Proj, b: &Self::Proj) -> bool;
+    fn op_ne(a: &Self::Proj, b: &Self::Proj) -> bool;
+    fn op_aff_eq(a: &Self::Aff, b: &Self::Aff) -> bool;
+    fn op_mul_assign(a: &mut Self::Proj, k: cr::FrRepr);
+    fn op_aff_mul(a: &Self::Aff, k: cr::FrRepr) -> Self::Proj;
+    fn op_precomp_3(a: &Self::Aff, pre: &mut [Self::Aff]);
+    fn op_mul_precomp_3(a: &Self::Aff, k: cr::FrRepr, pre: &[Self::Aff]) -> Self::Proj;
+    fn op_precomp_256(a: &Self::Aff, pre: &mut [Self::Aff]);
+    fn op_mul_precomp_256(a: &Self::Aff, k: cr::FrRepr, pre: &[Self::Aff]) -> Self::Proj;
+    fn op_sum_of_products(b: &[Self::Aff], s: &[&[u64; 4]]) -> Self::Proj;
+    fn op_sum_of_products_pippinger(b: &[Self::Aff], s: &[&[u64; 4]], w: usize) -> Self::Proj;
+    fn op_sum_of_products_precomp_256(b: &[Self::Aff], s: &[&[u64; 4]], pre: &[Self::Aff]) -> Self::Proj;
+    fn op_find_pippinger_window(n: usize) -> usize;
+    fn op_in_subgroup(a: &Self::Aff) -> bool;
+    fn op_zero() -> Self::Proj;
+    fn op_one() -> Self::Proj;
+    fn op_aff_zero() -> Self::Aff;
+    fn op_aff_one() -> Self::Aff;
+}
+
+macro_rules! ops_impl {
+    ($g:ty, $P:ty, $A:ty) => {
+        impl Ops for $g {
+            fn op_add(a: &mut $P, b: &$P) {
+                a.add_assign(b)
+            }
+            fn op_sub(a: &mut $P, b: &$P) {
+                a.sub_assign(b)
+            }
+            fn op_add_mixed(a: &mut $P, b: &$A) {
+                a.add_assign_mixed(b)
+            }
+            fn op_sub_mixed(a: &mut $P, b: &$A) {
+                a.sub_assign_mixed(b)
+            }
+            fn op_double(a: &mut $P) {
+                a.double()
+            }
+            fn op_neg(a: &mut $P) {
+                a.negate()
+            }
+            fn op_neg_aff(a: &mut $A) {
+                a.negate()
+            }
+            fn op_to_affine(a: &$P) -> $A {
+                a.into_affine()
+            }
+            fn op_to_proj(a: &$A) -> $P {
+                a.into_projective()
+            }
+            fn op_is_zero(a: &$P) -> bool {
+                a.is_zero()
+            }
+            fn op_aff_is_zero(a: &$A) -> bool {
+                a.is_zero()
+            }
+            fn op_is_normalized(a: &$P) -> bool {
+                a.is_normalized()
+            }
+            fn op_batch(v: &mut [$P]) {
+                <$P>::batch_normalization(v)
+            }
+            fn op_eq(a: &$P, b: &$P) -> bool {
+                a == b
+            }
+            fn op_ne(a: &$P, b: &$P) -> bool {
+                a != b
+            }
+            fn op_aff_eq(a: &$A, b: &$A) -> bool {
+                a == b
+            }
+            fn op_mul_assign(a: &mut $P, k: cr::FrRepr) {
+                a.mul_assign(k)
+            }
+            fn op_aff_mul(a: &$A, k: cr::FrRepr) -> $P {
+                a.mul(k)
+            }
+            fn op_precomp_3(a: &$A, pre: &mut [$A]) {
+                a.precomp_3(pre)
+            }
+            fn op_mul_precomp_3(a: &$A, k: cr::FrRepr, pre: &[$A]) -> $P {
+                a.mul_precomp_3(k, pre)
+            }
+            fn op_precomp_256(a: &$A, pre: &mut [$A]) {
+                a.precomp_256(pre)
+            }
+            fn op_mul_precomp_256(a: &$A, k: cr::FrRepr, pre: &[$A]) -> $P {
+                a.mul_precomp_256(k, pre)
+            }
+            fn op_sum_of_products(b: &[$A], s: &[&[u64; 4]]) -> $P {
+                <$A>::sum_of_products(b, s)
+            }
+            fn op_sum_of_products_pippinger(b: &[$A], s: &[&[u64; 4]], w: usize) -> $P {
+                <$A>::sum_of_products_pippinger(b, s, w)
+            }
+            fn op_sum_of_products_precomp_256(b: &[$A], s: &[&[u64; 4]], pre: &[$A]) -> $P {
+                <$A>::sum_of_products_precomp_256(b, s, pre)
+            }
+            fn op_find_pippinger_window(n: usize) -> usize {
+                <$A>::find_pippinger_window(n)
+            }
+            fn op_in_subgroup(a: &$A) -> bool {
+                use pairing_plus::SubgroupCheck;
+                a.in_subgroup()
+            }
+            fn op_zero() -> $P {
+                <$P>::zero()
+            }
+            fn op_one() -> $P {
+                <$P>::one()
+            }
+            fn op_aff_zero() -> $A {
+                <$A>::zero()
+            }
+            fn op_aff_one() -> $A {
+                <$A>::one()
+            }
+        }
+    };
+}
+
+ops_impl!(G1m, cr::G1, cr::G1Affine);
+ops_impl!(G2m, cr::G2, cr::G2Affine);
+
 impl Grp for G1m {
     type F = Fq;
     type CF = cr::Fq;
